@@ -13,6 +13,7 @@ import (
 	"time"
 
 	"github.com/alicebob/miniredis/v2"
+	"github.com/alicebob/miniredis/v2/server"
 	red "github.com/go-redis/redis/v8"
 	"github.com/gotid/god/lib/breaker"
 	"pgregory.net/rapid"
@@ -24,6 +25,10 @@ type c12BrkCase struct {
 	Ops []string `json:"ops"`
 	// Dead: calls made against the closed server (commands by name).
 	Dead []string `json:"dead"`
+	// Hung: calls made against the server that accepts connections but never answers,
+	// each with a context deadline of HungMs milliseconds (30..80).
+	Hung   []string `json:"hung"`
+	HungMs int      `json:"hung_ms"`
 }
 
 var (
@@ -59,6 +64,44 @@ func c12Dead(t *testing.T) string {
 		}
 	})
 	return c12DeadAddr
+}
+
+var (
+	c12HungOnce sync.Once
+	c12HungAddr string
+)
+
+// c12Hung: a server that is up (connections are accepted) but never answers: its
+// pre-hook parks every command for 3 s and then drops it. A caller with a short
+// deadline sees a connection-level failure through its deadline.
+func c12Hung(t *testing.T) string {
+	c12HungOnce.Do(func() {
+		m, err := miniredis.Run()
+		if err != nil {
+			t.Fatalf("miniredis H: %v", err)
+		}
+		m.Server().SetPreHook(func(*server.Peer, string, ...string) bool {
+			time.Sleep(3 * time.Second)
+			return true
+		})
+		c12HungAddr = m.Addr()
+		// create the wrapper's shared client of this address now (see c12Renew: the
+		// decoy's client must stay the most recently created one)
+		ctx, cancel := context.WithTimeout(context.Background(), 30*time.Millisecond)
+		New(c12HungAddr).GetCtx(ctx, "k")
+		cancel()
+	})
+	return c12HungAddr
+}
+
+var c12HungOps = map[string]func(r *Redis, ctx context.Context) error{
+	"Get":  func(r *Redis, ctx context.Context) error { _, err := r.GetCtx(ctx, "k"); return err },
+	"Set":  func(r *Redis, ctx context.Context) error { return r.SetCtx(ctx, "k", "v") },
+	"HGet": func(r *Redis, ctx context.Context) error { _, err := r.HGetCtx(ctx, "h", "f"); return err },
+	"Incr": func(r *Redis, ctx context.Context) error { _, err := r.IncrCtx(ctx, "n"); return err },
+	"Pipelined": func(r *Redis, ctx context.Context) error {
+		return r.PipelinedCtx(ctx, func(p Pipeliner) error { p.Get(ctx, "k"); return nil })
+	},
 }
 
 var c12NilOps = map[string]func(r *Redis) (error, error){
@@ -122,6 +165,10 @@ func c12MapNames(m any) []string {
 		for k := range mm {
 			out = append(out, k)
 		}
+	case map[string]func(r *Redis, ctx context.Context) error:
+		for k := range mm {
+			out = append(out, k)
+		}
 	}
 	sort.Strings(out)
 	return out
@@ -145,6 +192,11 @@ func c12BrkGen(rt *rapid.T) c12BrkCase {
 	for n := 40; n > 0; n-- {
 		c.Dead = append(c.Dead, deadNames[g.uni(len(deadNames))])
 	}
+	hungNames := c12MapNames(c12HungOps)
+	for n := 40; n > 0; n-- {
+		c.Hung = append(c.Hung, hungNames[g.uni(len(hungNames))])
+	}
+	c.HungMs = 30 + g.uni(51)
 	return c
 }
 
@@ -219,6 +271,46 @@ func c12BrkInterp(t *testing.T, c c12BrkCase) (v kit.Verdict) {
 		return v.Failf("breaker rejected after only %d failures (protection = 5)", tripped)
 	}
 	cls[fmt.Sprintf("tripped-after:%02d", tripped)] = true
+
+	// (c) black-hole outage: the server accepts connections but never answers; callers
+	// use the Ctx forms with short real deadlines. Every call is a connection-level
+	// failure (seen through the deadline), so the breaker must start rejecting.
+	// (An already expired deadline on a LIVE server is a different thing and is not
+	// generated here: the statement is silent about it.)
+	if len(c.Hung) > 0 {
+		rh := New(c12Hung(t))
+		hungTripped := -1
+		for i, name := range c.Hung {
+			op := c12HungOps[name]
+			if op == nil {
+				return v.Failf("unknown hung op %q", name)
+			}
+			ctx, cancel := context.WithTimeout(context.Background(), time.Duration(c.HungMs)*time.Millisecond)
+			t0 := time.Now()
+			err := op(rh, ctx)
+			cancel()
+			if time.Since(t0) > c12Stall {
+				cls["env:stalled-step"] = true
+				v.Excluded = true
+				return v
+			}
+			if err == nil {
+				return v.Failf("hung call %d (%s) succeeded against a server that never answers", i, name)
+			}
+			if err == breaker.ErrServiceUnavailable {
+				hungTripped = i
+				break
+			}
+			cls["hung-error:"+fmt.Sprintf("%T", err)+":"+err.Error()] = true
+		}
+		if hungTripped < 0 {
+			return v.Failf("%d consecutive calls that ran into their %d ms deadline on a server that never answers did not make the breaker reject", len(c.Hung), c.HungMs)
+		}
+		if hungTripped < 6 {
+			return v.Failf("breaker rejected after only %d failures (protection = 5)", hungTripped)
+		}
+		cls[fmt.Sprintf("hung-tripped-after:%02d", hungTripped)] = true
+	}
 	v.NonTrivial = true
 	return v
 }
